@@ -32,6 +32,8 @@ def gen_case(rng, i):
         # NU / NR on the right-hand side
         j = q['assign'][0][0]
         q['assign'][0] = [j, rng.choice([['NU'], ['tostr', ['NU']], ['arith', '+', ['NU'], ['NR']], ['concat', ['tostr', ['NU']], ['str', '/']]])]
+    if rng.random() < 0.04:
+        q['with'] = rng.choice(['header', 'noheader', 'headers', 'noheaders'])      # list tables take their names from the caller: a no-op here
     return common.case_json(q, T)
 
 
